@@ -260,6 +260,11 @@ def main_run(pid, tier, seed, jobs, only=None, replay=None):
     for k, (e, n, v) in sorted(known_seen.items()):
         print(f"KNOWN-FINDING: property={pid} {e['key'] if isinstance(e['key'], str) else e['key'][0]} :: {e['what']} [{n} observations, e.g. {v['key']}]")
 
+    dump = os.environ.get("VERIF_DUMP_KEYS")
+    if dump:
+        with open(dump, "w") as f:
+            for v in viols:
+                f.write(("K " if match_finding(v["key"], findings) else "N ") + v["key"] + " :: " + v["detail"][:200] + "\n")
     n_new = 0
     for (comp, clause), vs in sorted(groups.items()):
         for i, v in enumerate(vs[:3]):
